@@ -47,7 +47,37 @@ func c19compiledFn() ugo.Object {
 
 var c19time = time.Date(2021, 3, 4, 5, 6, 7, 8, time.UTC)
 
+// lengths around the sizes of internal buffers (64-byte scratch arrays and their base64 / hex
+// expansions, small-size fast paths, 16-bit counts)
+var c19lengths = []int{48, 49, 63, 64, 65, 128, 129, 256, 257, 1024, 1025, 4096, 4097, 65536}
+
+// c19pool: the boundary pool; the entries named L:* (bytes, strings and arrays of every length of
+// c19lengths) come last and are used in their own sweep, not in the full tuple enumeration.
 func c19pool() []poolEntry {
+	p := c19pool0()
+	for _, n := range c19lengths {
+		n := n
+		p = append(p,
+			poolEntry{fmt.Sprintf("L:b%d", n), func() ugo.Object {
+				b := make(ugo.Bytes, n)
+				for i := range b {
+					b[i] = byte(i * 7)
+				}
+				return b
+			}},
+			poolEntry{fmt.Sprintf("L:s%d", n), func() ugo.Object { return ugo.String(strings.Repeat("a\u00e9", n/3+1)[:n]) }},
+			poolEntry{fmt.Sprintf("L:a%d", n), func() ugo.Object {
+				a := make(ugo.Array, n)
+				for i := range a {
+					a[i] = ugo.Int(i)
+				}
+				return a
+			}})
+	}
+	return p
+}
+
+func c19pool0() []poolEntry {
 	obj := func(o ugo.Object) func() ugo.Object { return func() ugo.Object { return o } }
 	return []poolEntry{
 		{"undefined", obj(ugo.Undefined)},
